@@ -8,6 +8,9 @@ open Uhppote Uhppote.Model Uhppote.Driver.Wire
 
 def T : BCD.Tables := Driver.ModelBCD.genTables
 
+def wireBounds : HHmmBounds :=
+  ⟨Gen.Types.hhmmMaxHoursWire, Gen.Types.hhmmMaxMinutesWire, Gen.Types.hhmm24RuleWire⟩
+
 /-- `T=<Name>` (a shipped message, layout regenerated from messages/*.go) or inline tokens -/
 def layoutOf (ts : List String) : Option (Layout × List String) :=
   match ts with
@@ -25,7 +28,15 @@ def handle : List String → Option String
     let (L, rest) ← layoutOf r
     let [h] := rest | none
     let b ← fromHex h
-    some (showOutcomeVals (unmarshal Gen.codecFacts T Gen.Types.hhmmMaxMinutesWire L b))
+    some (showOutcomeVals (unmarshal Gen.codecFacts T wireBounds L b))
+  | "alias" :: r => do
+    let (L, _) ← layoutOf r
+    -- a decoded value changes with the buffer only if its reader stored a view of the input
+    let views := L.leaves.any fun l => match l with
+      | .at _ .mac _ => !Gen.codecFacts.macReaderCopies
+      | .at _ .ipv4 _ => !Gen.codecFacts.ipReaderCopies
+      | _ => false
+    some (if views then "changed" else "same")
   | _ => none
 
 end Uhppote.Driver.ModelCodec
